@@ -2,6 +2,8 @@ package simkit
 
 import (
 	"bytes"
+	"os"
+	"syscall"
 	"crypto/sha256"
 	"encoding/hex"
 	"fmt"
@@ -518,13 +520,18 @@ func (w *World) applyLocked(c *Call, f Kind, choice, nparked int) result {
 	switch f {
 	case FErr:
 		res = result{err: fmt.Errorf("sim: transient error on %s %s: %w", c.Op, c.Key, ErrTransient)}
+		if c.Disk != nil {
+			res = result{err: &os.PathError{Op: c.Op.String(), Path: c.Key, Err: syscall.EIO}}
+		}
 	case FCrashB:
 		cl.Dead, cl.DeadAt = true, w.Seq
 		res = result{err: ErrClientDead}
 	case FTorn:
 		res = c.target().applyTorn(c, w.S)
 		landed = true
-		res.err = fmt.Errorf("sim: connection reset while writing %s: %w", c.Key, ErrTransient)
+		if c.Disk == nil {
+			res.err = fmt.Errorf("sim: connection reset while writing %s: %w", c.Key, ErrTransient)
+		}
 	default:
 		res = c.target().apply(c)
 		landed = res.err == nil && c.Op.IsWrite()
